@@ -1,37 +1,71 @@
 -------------------------- MODULE IntegrationLoop --------------------------
 (***************************************************************************)
 (* C01 (second solver): control structure of IntegrationSolver.solve.      *)
-(* The environment decides the residuum class at each loop top and the     *)
-(* outcome of each integration; Optimal is reachable only through          *)
-(* "residuum <= opt_tol" at the loop top or a Converged event.             *)
+(*                                                                         *)
+(* State: the loop position, the iteration counter, the penalty level, the *)
+(* set `free` of variables the projected flow may move (the code's boolean *)
+(* `filter`; FlowFilter.tla specifies how it is computed at a point) and   *)
+(* the outcome of the last integration.  The environment decides the       *)
+(* residuum class at each loop top and which terminal event ends each      *)
+(* integration; Optimal is reachable only through "residuum <= opt_tol"    *)
+(* at the loop top or a Converged event.                                   *)
+(*                                                                         *)
+(* One integration ends with                                               *)
+(*   Converged / Unbounded  -> the solve ends;                             *)
+(*   Event     -> exactly one variable changes sides: a free variable hit  *)
+(*                a bound (LB/UB) and is pinned, or the flow direction of  *)
+(*                a pinned variable changed sign (GRAD_FIXED) and it is    *)
+(*                released;                                                *)
+(*   Penalty   -> the penalty is multiplied by ten (never lowered) and the *)
+(*                free set is recomputed from scratch for the new penalty; *)
+(*   Finished  -> the integrator ran to its horizon: nothing changes.      *)
 (***************************************************************************)
-EXTENDS Integers
+EXTENDS Integers, FiniteSets
 
-CONSTANTS Limit, MaxRhoLev
+CONSTANTS Limit, MaxRhoLev, Vars
 
-VARIABLES pc, iter, lev, status, why, dl
+VARIABLES pc, iter, lev, status, why, dl, free, last
 
-vars == <<pc, iter, lev, status, why, dl>>
-Init == pc = "Top" /\ iter = 0 /\ lev = 0 /\ status = "none" /\ why = "none" /\ dl \in BOOLEAN
+vars == <<pc, iter, lev, status, why, dl, free, last>>
 
-Top ==
+NoEvent == [res |-> "none", trig |-> "none", j |-> 0]
+
+Init == /\ pc = "Top" /\ iter = 0 /\ lev = 0 /\ status = "none" /\ why = "none" /\ dl \in BOOLEAN
+        /\ free \in SUBSET Vars /\ last = NoEvent
+
+TopCtl ==
   /\ pc = "Top"
   /\ \/ /\ status' = "Optimal" /\ why' = "residuum" /\ pc' = "Done"                 \* curr_res <= opt_tol
      \/ /\ dl /\ status' = "TimeLimit" /\ why' = "deadline" /\ pc' = "Done"
      \/ /\ ~dl /\ status' = "LocallyInfeasible" /\ why' = "infeasible" /\ pc' = "Done"
      \/ /\ ~dl /\ status' = "Unbounded" /\ why' = "objlimit" /\ pc' = "Done"
      \/ /\ ~dl /\ status' = "none" /\ why' = why /\ pc' = "Integrate"
-  /\ UNCHANGED <<iter, lev, dl>>
+  /\ UNCHANGED <<iter, lev, dl, last>>
+Top == TopCtl /\ UNCHANGED free
+
+(* the effect of one integration outcome on the free set *)
+Flip(S, j) == IF j \in S THEN S \ {j} ELSE S \cup {j}
+TrigOK(S, trig, j) == CASE trig \in {"LB", "UB"} -> j \in S
+                        [] trig = "GRAD_FIXED" -> j \notin S
+                        [] OTHER -> FALSE
+
+Outcome(res, trig, j, nfree) ==
+  /\ iter' = iter + 1
+  /\ last' = [res |-> res, trig |-> trig, j |-> j]
+  /\ lev' = IF res = "Penalty" /\ lev < MaxRhoLev THEN lev + 1 ELSE lev
+  /\ free' = (CASE res = "Event" -> Flip(free, j)
+                [] res = "Penalty" -> nfree
+                [] OTHER -> free)
+  /\ IF res = "Converged" THEN status' = "Optimal" /\ why' = "converged" /\ pc' = "Done"
+     ELSE IF res = "Unbounded" THEN status' = "Unbounded" /\ why' = "event" /\ pc' = "Done"
+     ELSE IF iter + 1 >= Limit THEN status' = "IterationLimit" /\ why' = "limit" /\ pc' = "Done"
+     ELSE status' = "none" /\ why' = why /\ pc' = "Top"
 
 Integrate ==
   /\ pc = "Integrate"
-  /\ iter' = iter + 1
-  /\ \E res \in {"Converged", "Unbounded", "Event", "Finished", "Penalty"} :
-       /\ lev' = IF res = "Penalty" /\ lev < MaxRhoLev THEN lev + 1 ELSE lev
-       /\ IF res = "Converged" THEN status' = "Optimal" /\ why' = "converged" /\ pc' = "Done"
-          ELSE IF res = "Unbounded" THEN status' = "Unbounded" /\ why' = "event" /\ pc' = "Done"
-          ELSE IF iter + 1 >= Limit THEN status' = "IterationLimit" /\ why' = "limit" /\ pc' = "Done"
-          ELSE status' = "none" /\ why' = why /\ pc' = "Top"
+  /\ \/ \E res \in {"Converged", "Unbounded", "Finished"} : Outcome(res, "none", 0, free)
+     \/ \E j \in Vars, trig \in {"LB", "UB", "GRAD_FIXED"} : TrigOK(free, trig, j) /\ Outcome("Event", trig, j, free)
+     \/ \E nfree \in SUBSET Vars : Outcome("Penalty", "none", 0, nfree)
   /\ dl' \in {dl, TRUE}
 
 Next == Top \/ Integrate
@@ -41,4 +75,12 @@ C01_OptimalOnlyIfConverged == status = "Optimal" => why \in {"residuum", "conver
 C02_IterBound == iter <= Limit
 C02_IterLimitOnlyAtLimit == status = "IterationLimit" => iter = Limit
 C16_PenaltyMonotone == [][lev' >= lev]_vars
+
+(* active-set bookkeeping of the flow *)
+SymDiff(A, B) == (A \ B) \cup (B \ A)
+EventFlipsOne == [][(last'.res = "Event" /\ iter' = iter + 1) => SymDiff(free, free') = {last'.j}]_vars
+OnlyEventsMoveTheSet == [][(iter' = iter + 1 /\ last'.res \notin {"Event", "Penalty"}) => free' = free]_vars
+BoundEventsPin == [][(iter' = iter + 1 /\ last'.trig \in {"LB", "UB"}) => (last'.j \in free /\ last'.j \notin free')]_vars
+SignChangeReleases == [][(iter' = iter + 1 /\ last'.trig = "GRAD_FIXED") => (last'.j \notin free /\ last'.j \in free')]_vars
+PenaltyOnlyOnPenalty == [][lev' # lev => last'.res = "Penalty"]_vars
 =============================================================================
